@@ -182,9 +182,29 @@ static void write_setfile_version(rng_t *r)
 	for (int i = 0; i < NF; i++) if (rndp(r, p)) { const char *b = strrchr(G.disk[order[i]].path, '/') + 1; if (rndp(r, 500)) fprintf(f, "%s\n", b); else fprintf(f, "%s\n", G.disk[order[i]].path); }
 	if (rndp(r, 250)) fprintf(f, "never-existed.mtbl\n");
 	if (rndp(r, 250)) fprintf(f, "%s\n", rndp(r, 500) ? "junk.bin" : G.junk);
+	if (rndp(r, 150)) fprintf(f, "\n");                       /* a blank line resolves to the setfile's directory: exists, is not a table */
 	fclose(f);
 	G.setver++;
-	struct timespec ts[2] = {{3000000 + G.setver, 0}, {3000000 + G.setver, 0}};   /* strictly increasing second: change detection is deterministic */
+	static long cur_mtime;
+	struct stat st;
+	if (G.setver > 1 && rndn(r, 3) == 0 && __real_stat(G.setfile, &st) == 0) {
+		/* in-place rewrite (same inode) with an explicitly set mtime that differs from the current one: newer, or OLDER
+		   (cp -p of a backup, rsync -t, a clock that stepped back); an unchanged (inode, mtime) pair is undetectable by design and not generated */
+		size_t n; uint8_t *b = read_file(tmp, &n);
+		int fd = open(G.setfile, O_WRONLY | O_TRUNC);
+		if (fd >= 0 && b) { if (write(fd, b, n) != (ssize_t)n) {} close(fd); }
+		free(b); unlink(tmp);
+		cur_mtime = st.st_mtime;
+		cur_mtime = rndn(r, 2) ? cur_mtime - 3 - (long)rndn(r, 40) : cur_mtime + 2 + (long)rndn(r, 5);
+		struct timespec ts[2] = {{cur_mtime, 0}, {cur_mtime, 0}};
+		utimensat(AT_FDCWD, G.setfile, ts, 0);
+		STAT("actions.setfile_rewritten_in_place");
+		if (cur_mtime < st.st_mtime) STAT("actions.setfile_rewritten_in_place_with_older_mtime");
+		return;
+	}
+	if (G.setver == 1 || cur_mtime < 3000000) cur_mtime = 3000000;
+	cur_mtime += 50 + (long)rndn(r, 3);
+	struct timespec ts[2] = {{cur_mtime, 0}, {cur_mtime, 0}};   /* explicit second: change detection does not depend on wall-clock coincidences */
 	utimensat(AT_FDCWD, tmp, ts, 0);
 	rename(tmp, G.setfile);
 }
